@@ -387,8 +387,12 @@ fn main() {
     // length 1..=L ({:.N} and {:.Ne})
     let lmax3f: usize = tier.pick(1500, 6000);
     run.bound("S3f_dropped_lengths", format!("1..={}", lmax3f));
-    run.par("S3f decision shapes at every dropped length", lmax3f, |li| {
-        let l = li + 1;
+    // ... and a ladder of far longer dropped parts (sizes at which a digit-count ESTIMATE first goes wrong are set
+    // by the estimate's error, not by any literal in the code)
+    let ladder: Vec<usize> = tier.pick(vec![3000, 5000, 7100, 8000, 10000, 12000, 16500, 20000], vec![12000, 16500, 20000, 25000, 33000, 50000, 70000, 100000]);
+    run.bound("lmax3f_ladder", json!(ladder));
+    run.par("S3f decision shapes at every dropped length", lmax3f + ladder.len(), |li| {
+        let l = if li < lmax3f { li + 1 } else { ladder[li - lmax3f] };
         let mut t = Tally::default();
         for tail in decision_tails(l) {
             for (head, sign) in [("7", 1), ("86", -1)] {
@@ -403,6 +407,9 @@ fn main() {
                     ns.dedup();
                     sweep(&run, &cfg, &x, &ns, &mut t);
                 }
+                // every digit behind the last printed place: 0.00<digits> printed with two (and one) fraction digits
+                let x = Dec { n: big(&digits) * sign, s: (l + h + 2) as i128 };
+                sweep(&run, &cfg, &x, &[2, 1, 3], &mut t);
             }
         }
         t
